@@ -98,3 +98,61 @@ package zygo
 //@ |  && (*name == ">=" ==> boolRes(r0, c == 0 || c == 1))
 //@ |  && (*name == "==" ==> boolRes(r0, c == 0))
 //@ |  && (*name == "!=" ==> boolRes(r0, c != 0)))
+
+// ---- arithmetic ------------------------------------------------------------
+//@ macro intRes(r Sexp, v int64) bool = typeis(r, *SexpInt) && r.(*SexpInt).Val == v
+//@ macro uintRes(r Sexp, v uint64) bool = typeis(r, *SexpUint64) && r.(*SexpUint64).Val == v
+//@ macro floatRes(r Sexp, v float64) bool = typeis(r, *SexpFloat) && same(r.(*SexpFloat).Val, v)
+//@ macro intArith(op NumericOp, x int64, y int64, r Sexp) bool = (op == Add ==> intRes(r, x+y)) && (op == Sub ==> intRes(r, x-y)) && (op == Mult ==> intRes(r, x*y))
+//@ |  && (op == Div && x % y == 0 ==> intRes(r, x/y)) && (op == Div && x % y != 0 ==> floatRes(r, float64(x)/float64(y)))
+//@ macro uintArith(op NumericOp, x uint64, y uint64, r Sexp) bool = (op == Add ==> uintRes(r, x+y)) && (op == Sub ==> uintRes(r, x-y)) && (op == Mult ==> uintRes(r, x*y))
+//@ |  && (op == Div && x % y == 0 ==> uintRes(r, x/y)) && (op == Div && x % y != 0 ==> floatRes(r, float64(x)/float64(y)))
+//@ macro floatArith(op NumericOp, x float64, y float64, r Sexp) bool = (op == Add ==> floatRes(r, x+y)) && (op == Sub ==> floatRes(r, x-y)) && (op == Mult ==> floatRes(r, x*y)) && (op == Div ==> floatRes(r, x/y))
+
+// "fparith uninterpreted": float +,-,*,/ are uninterpreted functions in these
+// VCs (the proofs need congruence only: the code must apply the same operation
+// to the same operands as the specification).
+
+//@ func NumericIntDo
+//@ fparith uninterpreted
+//@ C07 pure
+//@ C07 ensures arith: intArith(op, old(a.Val), old(b.Val), r0)
+
+//@ func NumericUint64Do
+//@ fparith uninterpreted
+//@ C07 pure
+//@ C07 ensures arith: uintArith(op, old(a.Val), old(b.Val), r0)
+
+//@ func NumericFloatDo
+//@ fparith uninterpreted
+//@ C07 pure
+//@ C07 ensures arith: floatArith(op, old(a.Val), old(b.Val), r0)
+
+//@ func NumericMatchInt
+//@ fparith uninterpreted
+//@ C07 pure
+//@ C07 ensures int-int: old(typeis(b, *SexpInt)) ==> r1 == nil && intArith(op, old(a.Val), old(b.(*SexpInt).Val), r0)
+//@ C07 ensures int-float: old(typeis(b, *SexpFloat)) ==> r1 == nil && floatArith(op, float64(old(a.Val)), old(b.(*SexpFloat).Val), r0)
+
+//@ func NumericMatchFloat
+//@ fparith uninterpreted
+//@ C07 pure
+//@ C07 ensures float-float: old(typeis(b, *SexpFloat)) ==> r1 == nil && floatArith(op, old(a.Val), old(b.(*SexpFloat).Val), r0)
+//@ C07 ensures float-int: old(typeis(b, *SexpInt)) ==> r1 == nil && floatArith(op, old(a.Val), float64(old(b.(*SexpInt).Val)), r0)
+
+//@ func NumericMatchUint64
+//@ fparith uninterpreted
+//@ C07 pure
+//@ C07 ensures u-u: old(typeis(b, *SexpUint64)) ==> r1 == nil && uintArith(op, old(a.Val), old(b.(*SexpUint64).Val), r0)
+//@ C07 ensures u-float: old(typeis(b, *SexpFloat)) ==> r1 == nil && floatArith(op, float64(old(a.Val)), old(b.(*SexpFloat).Val), r0)
+
+//@ func NumericDo
+//@ fparith uninterpreted
+//@ C07 ensures int-int: old(typeis(a, *SexpInt) && typeis(b, *SexpInt)) ==> r1 == nil && intArith(op, old(a.(*SexpInt).Val), old(b.(*SexpInt).Val), r0)
+//@ C07 ensures u-u: old(typeis(a, *SexpUint64) && typeis(b, *SexpUint64)) ==> r1 == nil && uintArith(op, old(a.(*SexpUint64).Val), old(b.(*SexpUint64).Val), r0)
+//@ C07 ensures float-float: old(typeis(a, *SexpFloat) && typeis(b, *SexpFloat)) ==> r1 == nil && floatArith(op, old(a.(*SexpFloat).Val), old(b.(*SexpFloat).Val), r0)
+//@ C07 ensures int-float: old(typeis(a, *SexpInt) && typeis(b, *SexpFloat)) ==> r1 == nil && floatArith(op, float64(old(a.(*SexpInt).Val)), old(b.(*SexpFloat).Val), r0)
+//@ C07 ensures float-int: old(typeis(a, *SexpFloat) && typeis(b, *SexpInt)) ==> r1 == nil && floatArith(op, old(a.(*SexpFloat).Val), float64(old(b.(*SexpInt).Val)), r0)
+
+//@ func IntegerDo
+//@ C07 ensures mod: op == Modulo && old(typeis(a, *SexpInt) && typeis(b, *SexpInt)) ==> r1 == nil && intRes(r0, old(a.(*SexpInt).Val) % old(b.(*SexpInt).Val))
